@@ -11,6 +11,16 @@ ENGINES = [
 NOT_YET = {}
 TB = "Trusted: Lean kernel; axioms ⊆ {propext, Quot.sound, Classical.choice}; the translator; the harness + canonicalisation; "
 META = {
+    "C15": {
+        "text": "try_from_boxed_slice_spec / try_from_vec_spec / try_from_vec_owned_spec: Ok iff the source length is N, the same elements in order, LengthError otherwise with every source element dropped once; same block for try_from_boxed_slice and for try_from_vec iff len = capacity; into_boxed_slice_spec (into_boxed_slice, into_vec: same block, N elements); check_before_ownership_transfer; boxed_constructors (boxed from_iter is the same function of the source as the stack form, C07; default_boxed is boxed generate, C16). Length guards, the rebuilt slice length and the delegation bodies are regenerated from src/impl_alloc.rs. Correspondence under a recording allocator: contents, Ok/Err, block address, allocator call count, drops; multi-MiB constructors on a 256 KiB stack.",
+        "design_ref": "§5 C15", "note": TB + "modelled not verified: Vec/Box allocation contract; stack-temporary behaviour of rustc (small-stack run is the evidence).",
+        "technique": "Lean 4 case analysis over regenerated guards + recording-allocator correspondence",
+    },
+    "C16": {
+        "text": "For boxed generate's whole life cycle (request, fill loop with a generator that may panic at any call, Box::from_raw, eventual drop) and for every element size incl. 0, every N incl. 0, every generator and allocator outcome: requests_nonzero, release_matches, no_leak (the block is released while unwinding), alloc_failure_path (handle_alloc_error, the null block is never touched), boxed_complete. They rest on three regenerated facts: the allocator is avoided iff the array's layout has size 0, a null test with handle_alloc_error precedes the first use, a deallocating guard is live across the loop. On the pinned tree all three were false; Lean refuted the claims, the harness replayed the failing inputs on the real crate, and the defects were repaired in /repo (KNOWN_FINDINGS.txt). Correspondence: recording global allocator, panic at every call, allocation failure in a child process.",
+        "design_ref": "§5 C16, §6", "note": TB + "modelled not verified: std's Vec/Box discipline for the other alloc-feature operations (checked by the recorder's oracle only).",
+        "technique": "Lean 4 case analysis over allocator-event traces on regenerated guards + recording-allocator / fault-injection correspondence",
+    },
     "C14": {
         "text": "hex_spec: for every byte string, every precision (or none) and both cases, generic_hex prints exactly the first min(p, 2N) characters of the two-digits-per-byte string, on all three strategies (whole-array table fallback, 2N stack buffer, chunk loop through a reused buffer with a running digit budget - largeLoop_spec by induction on the chunk list, so stale digits are never printed and no slice leaves the buffer); proved for the thresholds the source currently has under the regenerated side conditions 0 < chunk and 2*chunk <= buffer, so changing 1024 to 512 is not an alarm. nibble_table (all 256 byte values x both cases, decide +kernel), input_within (the unreachable_unchecked guard is unreachable), hex_format_spec, feature_independent. Arithmetic, thresholds and alphabets are regenerated from src/hex.rs. Correspondence: the real Display output, faster-hex off and on.",
         "design_ref": "§5 C14", "note": TB + "modelled not verified: core::fmt; faster-hex meets the encode contract (checked by running with the feature).",
